@@ -107,7 +107,7 @@ PROPS["C18"] = dict(
 PROPS["C19"] = dict(
     title="Heartbeats detect dead peers and never kill live ones",
     rule="(engine) real engines in the data phase driven in real time (IVL/TIMEOUT pairs 10/30, 20/20, 8/60, 30/10, 15/45 ms) through "
-         "seeded timelines of sleep / tick / inbound data / outbound write / PONG / peer PING (contexts 0..20 bytes) / malformed PING/"
+         "seeded timelines of sleep / tick / inbound data / outbound write / PONG / peer PING (contexts 0..20 bytes) / bursts of 2..5 peer PINGs with distinct contexts in one read / malformed PING/"
          "PONG events, v3 and v2; a trace-specification monitor keeps (last activity, outstanding PING) from the events it injected and "
          "judges every on_tick/on_network_bytes output (PING too early / missing, close too early / missing, PONG count and context, any "
          "heartbeat output on v2) with a 1.5 ms undecided band around each threshold; distinct = distinct timelines. (pair) the monitored "
